@@ -933,6 +933,9 @@ func (self *LockResultCommandData) GetArrayValue() [][]byte {
 			index += 4
 			continue
 		}
+		if valueLen > len(self.Data)-index-4 {
+			break
+		}
 		values = append(values, self.Data[index+4:index+4+valueLen])
 		index += valueLen + 4
 	}
@@ -951,13 +954,22 @@ func (self *LockResultCommandData) GetKVValue() map[string][]byte {
 			index += 4
 			continue
 		}
+		if keyLen > len(self.Data)-index-4 {
+			break
+		}
 		key := string(self.Data[index+4 : index+4+keyLen])
 		index += keyLen + 4
+		if index+4 > len(self.Data) {
+			break
+		}
 
 		valueLen := int(uint32(self.Data[index]) | uint32(self.Data[index+1])<<8 | uint32(self.Data[index+2])<<16 | uint32(self.Data[index+3])<<24)
 		if valueLen == 0 {
 			index += 4
 			continue
+		}
+		if valueLen > len(self.Data)-index-4 {
+			break
 		}
 		values[key] = self.Data[index+4 : index+4+valueLen]
 		index += valueLen + 4
@@ -970,9 +982,18 @@ func (self *LockResultCommandData) GetDataProperties() []*LockCommandDataPropert
 		return nil
 	}
 	properties := make([]*LockCommandDataProperty, 0)
+	if len(self.Data) < 8 {
+		return nil
+	}
 	propertyLen, index := int(self.Data[6])|int(self.Data[7])<<8, 0
-	for index < propertyLen {
+	if propertyLen > len(self.Data)-8 {
+		propertyLen = len(self.Data) - 8
+	}
+	for index+3 <= propertyLen {
 		propertyCode, valueLen := self.Data[8+index], int(self.Data[9+index])|int(self.Data[10+index])<<8
+		if valueLen > propertyLen-index-3 {
+			break
+		}
 		if valueLen > 0 {
 			properties = append(properties, NewLockCommandDataProperty(propertyCode, self.Data[11+index:11+index+valueLen]))
 		} else {
@@ -987,9 +1008,18 @@ func (self *LockResultCommandData) GetDataProperty(code uint8) *LockCommandDataP
 	if self.DataFlag&LOCK_DATA_FLAG_CONTAINS_PROPERTY == 0 {
 		return nil
 	}
+	if len(self.Data) < 8 {
+		return nil
+	}
 	propertyLen, index := int(self.Data[6])|int(self.Data[7])<<8, 0
-	for index < propertyLen {
+	if propertyLen > len(self.Data)-8 {
+		propertyLen = len(self.Data) - 8
+	}
+	for index+3 <= propertyLen {
 		propertyCode, valueLen := self.Data[8+index], int(self.Data[9+index])|int(self.Data[10+index])<<8
+		if valueLen > propertyLen-index-3 {
+			break
+		}
 		if code == propertyCode {
 			if valueLen > 0 {
 				return NewLockCommandDataProperty(code, self.Data[11+index:11+index+valueLen])
